@@ -254,6 +254,37 @@ func validateRun(args []string) int {
 	for i := 0; i < 200; i++ {
 		lim(r.Intn(260) - 80)
 	}
+	// the query of a command line is its arguments joined by blanks: the decision is the validator's decision on that string,
+	// however the words are spread over the arguments (accepted = the search is recorded in the history)
+	if os.Getenv("VERIF_WTF") != "" {
+		dbf := filepath.Join(repoPath(), "assets", "commands.yml")
+		home, _ := cliEnv()
+		hist := filepath.Join(home, ".config", "wtf", "search_history.json")
+		rep := func(c string, n int) string { return strings.Repeat(c, n) }
+		for _, args := range [][]string{{rep("a", 600), rep("b", 600)}, {rep("a", 500), rep("b", 500)}, {rep("a", 499), rep("b", 500)}, {"copy", "files", ""},
+			{"", "list"}, {rep("a", 1000)}, {rep("a", 1001)}, {"list", "fi;les"}, {"list", "files"}, {" ", "\t"}, {rep("x", 333), rep("y", 333), rep("z", 333)},
+			{rep("x", 333), rep("y", 333), rep("z", 332)}} {
+			for _, form := range []string{"search", "root"} {
+				argv := []string{}
+				if form == "search" {
+					argv = append(argv, "search")
+				}
+				argv = append(append(argv, "--database", dbf, "--"), args...)
+				os.Remove(hist)
+				if _, _, err := runWtf(argv); err != nil {
+					fatal("cannot run wtf: %v", err)
+				}
+				recorded := false
+				if b, err := os.ReadFile(hist); err == nil {
+					qs, _ := histQueries(b)
+					recorded = len(qs) == 1
+				}
+				_, verr := validation.ValidateQuery(strings.Join(args, " "))
+				tr++
+				w.emit(&valEv{Op: "cquery", OK: verr == nil, OK2: recorded, Tr: tr, In: []int{}, Out: []int{}, Form: form, N: len(strings.Join(args, " ")), Printed: len(args)})
+			}
+		}
+	}
 	// the same rule at the command line, through both ways of starting a search (`wtf search ...` and plain `wtf ...`)
 	if os.Getenv("VERIF_WTF") != "" {
 		dbf := filepath.Join(repoPath(), "assets", "commands.yml")
